@@ -7,7 +7,7 @@ from typing import Any, Dict, List, Optional, Set, Tuple
 
 from ..cfacts import CUnit
 from ..core import AnalysisError, Report
-from ..pyfacts import Repo, clone, inline_module_constants, inlined_statements, calls, dotted, norm, raise_guards, raised_class, walk_no_nested
+from ..pyfacts import Repo, clone, inline_pure_helpers, inline_module_constants, inlined_statements, calls, dotted, norm, raise_guards, raised_class, walk_no_nested
 
 DM = 'flipjump/interpreter/io_devices/device_memory.py'
 SC = 'flipjump/interpreter/io_devices/ScreenIO.py'
@@ -20,19 +20,19 @@ def rule_adapters(rep: Report, repo: Repo) -> None:
              'helpers exist once, in the base class, on top of read_word/write_word', 5)
     MASK = '(1 << self.memory_width) - 1'
     rr = repo.func(DM, 'ReaderDeviceMemory.read_word')
-    body = inlined_statements(rr)
+    body = inlined_statements(inline_pure_helpers(repo, DM, 'ReaderDeviceMemory', rr))
     rep.check(body == [f'return self._reader.memory.get(word_address & {MASK}, 0)'], 'C19.ADAPTERS', 'ReaderDeviceMemory.read_word', str(body),
               f'{DM}:{rr.lineno}', expected='dictionary read with default 0 at the masked address')
     rw = repo.func(DM, 'ReaderDeviceMemory.write_word')
-    body = inlined_statements(rw)
+    body = inlined_statements(inline_pure_helpers(repo, DM, 'ReaderDeviceMemory', rw))
     rep.check(body == [f'self._reader.memory[word_address & {MASK}] = value & {MASK}'], 'C19.ADAPTERS',
               'ReaderDeviceMemory.write_word', str(body), f'{DM}:{rw.lineno}', expected='masked address, masked value')
     nw = repo.func(DM, 'NativeDeviceMemory.write_word')
-    body = inlined_statements(nw)
+    body = inlined_statements(inline_pure_helpers(repo, DM, 'NativeDeviceMemory', nw))
     rep.check(body == [f'self._core_memory.set_word(word_address, value & {MASK})'], 'C19.ADAPTERS', 'NativeDeviceMemory.write_word',
               str(body), f'{DM}:{nw.lineno}')
     nr = repo.func(DM, 'NativeDeviceMemory.read_word')
-    body = inlined_statements(nr)
+    body = inlined_statements(inline_pure_helpers(repo, DM, 'NativeDeviceMemory', nr))
     rep.check(body == ['return int(self._core_memory.get_word(word_address))'], 'C19.ADAPTERS', 'NativeDeviceMemory.read_word', str(body), f'{DM}:{nr.lineno}')
     helpers = {'read_data_byte', 'write_data_byte', '_data_bit_offset', '_jump_word_address', '_require_byte_capable_width'}
     base = set(repo.methods(DM, 'DeviceMemory'))
@@ -205,14 +205,104 @@ def rule_screen_reject(rep: Report, repo: Repo) -> None:
               'palette lookups are bounds-tested', f'{SC}:{pr.lineno}')
 
 
+def _single_def(fn: ast.FunctionDef, name: str) -> Optional[ast.expr]:
+    """the value of the only plain assignment to a local name (None: a parameter, a loop target, or assigned more than once)."""
+    vals = [n.value for n in walk_no_nested(fn) if isinstance(n, ast.Assign) and len(n.targets) == 1 and isinstance(n.targets[0], ast.Name)
+            and n.targets[0].id == name]
+    others = [n for n in walk_no_nested(fn) if isinstance(n, ast.Name) and n.id == name and isinstance(n.ctx, ast.Store)]
+    return vals[0] if len(vals) == 1 and len(others) == 1 else None
+
+
+def _is_bpp_mask(e: ast.expr, fn: ast.FunctionDef) -> bool:
+    if isinstance(e, ast.Name):
+        d = _single_def(fn, e.id)
+        return d is not None and _is_bpp_mask(d, fn)
+    if isinstance(e, ast.BinOp) and isinstance(e.op, ast.Sub) and isinstance(e.right, ast.Constant) and e.right.value == 1:
+        l = e.left
+        if isinstance(l, ast.BinOp) and isinstance(l.op, ast.LShift) and isinstance(l.left, ast.Constant) and l.left.value == 1:
+            return norm(l.right) == 'self.bpp'
+        if isinstance(l, ast.BinOp) and isinstance(l.op, ast.Pow) and isinstance(l.left, ast.Constant) and l.left.value == 2:
+            return norm(l.right) == 'self.bpp'
+    return False
+
+
+def _bpp_masked(e: ast.expr, fn: ast.FunctionDef, repo: Repo, depth: int = 0) -> bool:
+    """every integer this expression denotes (itself, or each element when it is a list) is < 2**self.bpp by construction."""
+    if isinstance(e, ast.Constant):
+        return isinstance(e.value, int) and 0 <= e.value < 16
+    if isinstance(e, (ast.List, ast.Tuple)):
+        return all(_bpp_masked(x, fn, repo, depth) for x in e.elts)
+    if isinstance(e, ast.BinOp) and isinstance(e.op, ast.BitAnd):
+        return _is_bpp_mask(e.left, fn) or _is_bpp_mask(e.right, fn) or _bpp_masked(e.left, fn, repo, depth) or _bpp_masked(e.right, fn, repo, depth)
+    if isinstance(e, ast.BinOp) and isinstance(e.op, ast.Mod):
+        r = e.right
+        return isinstance(r, ast.BinOp) and isinstance(r.op, ast.LShift) and norm(r) == '1 << self.bpp'
+    if isinstance(e, ast.BinOp) and isinstance(e.op, ast.Mult):
+        return any(isinstance(x, (ast.List, ast.Tuple)) and _bpp_masked(x, fn, repo, depth) for x in (e.left, e.right))
+    if isinstance(e, (ast.ListComp, ast.GeneratorExp)):
+        return _bpp_masked(e.elt, fn, repo, depth)
+    if isinstance(e, ast.IfExp):
+        return _bpp_masked(e.body, fn, repo, depth) and _bpp_masked(e.orelse, fn, repo, depth)
+    if isinstance(e, ast.Subscript) and isinstance(e.ctx, ast.Load):
+        return _bpp_masked(e.value, fn, repo, depth)
+    if isinstance(e, ast.Name):
+        d = _single_def(fn, e.id)
+        return d is not None and _bpp_masked(d, fn, repo, depth)
+    if isinstance(e, ast.Call) and dotted(e.func) in ('list', 'tuple') and len(e.args) == 1:
+        return _bpp_masked(e.args[0], fn, repo, depth)
+    if isinstance(e, ast.Call) and (dotted(e.func) or '').startswith('self.') and depth < 3:
+        try:
+            callee = repo.func(SC, 'InMemoryScreen.' + dotted(e.func)[5:])
+        except (KeyError, AnalysisError):
+            return False
+        rets = [r.value for r in walk_no_nested(callee) if isinstance(r, ast.Return)]
+        return bool(rets) and all(r is not None and _bpp_masked(r, callee, repo, depth + 1) for r in rets)
+    return False
+
+
+def rule_pixel_mask(rep: Report, repo: Repo) -> None:
+    rep.rule('C19.PIXEL-MASK', 'every value the screen device stores into its pixel buffer (whole-buffer assignment or element store; any '
+             'other mutation is refused) is a palette index of bpp bits by construction: a small constant fill, or an expression masked with '
+             '(1 << self.bpp) - 1 - followed through single-assignment locals, comprehensions, element loads and the returns of private '
+             'methods. All three update commands therefore present the same pixels for the same program memory', 4)
+    cls = repo.cls(SC, 'InMemoryScreen')
+    n = 0
+    for m in cls.body:
+        if not isinstance(m, ast.FunctionDef):
+            continue
+        for node in walk_no_nested(m):
+            if isinstance(node, ast.Call) and isinstance(node.func, ast.Attribute) and norm(node.func.value) == 'self.pixel_indices' \
+                    and node.func.attr in ('append', 'extend', 'insert', '__setitem__'):
+                rep.check(False, 'C19.PIXEL-MASK', f'{m.name}:{node.func.attr}', 'the pixel buffer is mutated through a method call the rule cannot follow',
+                          f'{SC}:{node.lineno}')
+            if not isinstance(node, (ast.Assign, ast.AugAssign, ast.AnnAssign)):
+                continue
+            tgts = node.targets if isinstance(node, ast.Assign) else [node.target]
+            for t in tgts:
+                whole = norm(t) == 'self.pixel_indices'
+                elem = isinstance(t, ast.Subscript) and norm(t.value) == 'self.pixel_indices'
+                if not (whole or elem) or node.value is None:
+                    continue
+                n += 1
+                okv = not isinstance(node, ast.AugAssign) and _bpp_masked(node.value, m, repo)
+                if whole and isinstance(node.value, ast.List) and not node.value.elts:
+                    okv = True
+                rep.check(okv, 'C19.PIXEL-MASK', f'{m.name}:{"buffer" if whole else "element"}', f'{norm(node)[:120]}: ' + ('masked to bpp bits' if okv else
+                          'the stored value is not masked with (1 << self.bpp) - 1 on this path'), f'{SC}:{node.lineno}',
+                          expected='value & ((1 << self.bpp) - 1), a constant fill, or a private helper returning such values')
+    if n == 0:
+        raise AnalysisError('C19.PIXEL-MASK: no store into InMemoryScreen.pixel_indices found')
+
+
 def rule_dbit(rep: Report, repo: Repo) -> None:
     rep.rule('C19.DBIT', 'the data-bit offset #w and the jump-word address (+1 word) agree between the device adapter, the debugger and '
              'the standard library (dbit = w + #w)', 3)
     off = repo.func(DM, 'DeviceMemory._data_bit_offset')
     jw = repo.func(DM, 'DeviceMemory._jump_word_address')
-    r1 = [norm(r.value) for r in ast.walk(off) if isinstance(r, ast.Return)]
-    r2 = [norm(r.value) for r in ast.walk(jw) if isinstance(r, ast.Return)]
-    rep.check(r1 == ['self.memory_width.bit_length()'] and r2 == ['(op_bit_address >> self.memory_width.bit_length() - 1) + 1'], 'C19.DBIT', 'device',
+    # named temporaries and private helper / property reads are substituted before the formulas are compared
+    r1 = inlined_statements(inline_pure_helpers(repo, DM, 'DeviceMemory', off))
+    r2 = inlined_statements(inline_pure_helpers(repo, DM, 'DeviceMemory', jw))
+    rep.check(r1 == ['return self.memory_width.bit_length()'] and r2 == ['return (op_bit_address >> self.memory_width.bit_length() - 1) + 1'], 'C19.DBIT', 'device',
               f'{r1}; {r2}', f'{DM}:{off.lineno}')
     src = repo.src(RUNLIB)
     m = re.search(r'^\s*dbit\s*=\s*(.+?)\s*(?://.*)?$', src, re.M)
@@ -233,6 +323,7 @@ def check(rep: Report, repo: Optional[Repo] = None) -> None:
     rule_route(rep, cu)
     rule_screen_tables(rep, repo)
     rule_screen_reject(rep, repo)
+    rule_pixel_mask(rep, repo)
     rule_dbit(rep, repo)
     rep.not_decided.append('equality of the presented frames across engines for all programs (value-level)')
 
